@@ -1,6 +1,14 @@
 //! Developer tool: run an ST source for N cycles and print errors + dump. `strun file.st [cycles]`
 use trust_runtime::harness::TestHarness;
 fn main() {
+    // STRUN_STACK=<bytes>: run on a thread with that stack size (to measure native stack use)
+    if let Some(sz) = std::env::var("STRUN_STACK").ok().and_then(|s| s.parse::<usize>().ok()) {
+        std::thread::Builder::new().stack_size(sz).spawn(real_main).unwrap().join().unwrap();
+    } else {
+        real_main();
+    }
+}
+fn real_main() {
     let a: Vec<String> = std::env::args().collect();
     let src = std::fs::read_to_string(&a[1]).unwrap();
     let n: usize = a.get(2).and_then(|s| s.parse().ok()).unwrap_or(1);
